@@ -3,24 +3,39 @@
 PLAN = dict(
     level="fault_enumeration",
     rule="clause 1 (c12.fidelity, c12.retry): one case = one operation entry point (SM2 sign/encrypt/GenerateKey/key-exchange init+respond, "
-         "ecdh GenerateKey, SM2 algorithms over NIST P-256 (math/big path), SM9 master key generation, sign, WrapKey, Encrypt in five modes, "
+         "ecdh GenerateKey, SM2 algorithms over NIST P-256 (math/big path; keys naming the curve as elliptic.P256() and as its generic *CurveParams, "
+         "the latter also under purego/ia32; digests of 20..64 bytes), SM9 master key generation, sign, WrapKey, Encrypt in five modes, "
          "key-exchange init+respond; every exported wrapper is a variant) executed on a scripted random stream: structured streams "
          "(leading blocks 0, n-1, n, n+1, 2^256-1, >=n, the block that is zero after the documented XOR; then a valid block with top bits set, "
          "low bits set, 1..31 leading zero bytes, 1, 2, n-2/n-3 ...), random mixtures of those and uniform streams; forced algorithm-level "
-         "retries (signature r=0, r+k=n, s=0 by choice of the digest; all-zero KDF output by stored nonces). The scalar is recovered from the "
+         "retries (signature r=0, r+k=n, s=0 by choice of the digest; all-zero KDF output by stored nonces for SM2 encryption on the SM2 curve and "
+         "on NIST P-256 and for SM9 encapsulation). The scalar is recovered from the "
          "output with the private key (k=s(1+d)+rd; d of generated keys) or the public part is recomputed from the candidate block with "
          "independent arithmetic, and must be the first in-range block under the documented rule; bytes consumed must be exactly what the rule "
          "explains. c12.reentrant: every ordered pair (outer operation A, inner operation B) of the catalogue x Read index k of A x placement: "
          "B runs to completion (own script, same or another goroutine) inside A's k-th Read, before the bytes are served or after they were "
          "copied into the buffer; both outputs must then satisfy the fidelity oracle on their own stream (no bits of a sampled block shared "
-         "between overlapping operations). clause 2 (c12.faults, c12.eof): one case = (entry point, number of rejected blocks first, Read index k, fault kind) resp. "
+         "between overlapping operations). c12.history (object histories): one case = (kept object: one sm2.PrivateKey signing and encrypting to its "
+         "own public half [SM2 curve; NIST P-256], one sm2.KeyExchange [peer given at construction or later by SetPeerParameters] and one SM9 "
+         "key-exchange object used again and again in both roles, one sm9.SignPrivateKey, one sm9.EncryptMasterPublicKey wrapping and encrypting, "
+         "the four key generators one after the other, any catalogue operations on new objects) x (pattern of 2..5 calls, each with its OWN scripted "
+         "bytes: own healthy source / the next bytes of ONE source shared by the calls of the history / a source failing at a seeded read in a "
+         "seeded way / a source ending early / Destroy() / a Respond refused for an invalid or missing peer; the first two calls walk through the "
+         "ordered pairs of the object's operations): the secret of the n-th call must be the first in-range block of the bytes served to the n-th "
+         "call (never a block or the scalar of an earlier one), its consumption must be explained from the offset the call started at, failing calls "
+         "must return error and no output and leave nothing behind for the next call; after every healthy key-exchange call the object is driven on "
+         "(ConfirmResponder / ConfirmInitiator, confirmation values) against an honest peer computed by ref/sm2kx resp. ref/sm9 for the scalar of "
+         "the LATEST call, a generated ecdh key is used for ECDH and as ephemeral key of SM2MQV, and keys generated earlier are re-read after every "
+         "later call. clause 2 (c12.faults, c12.eof): one case = (entry point, number of rejected blocks first, Read index k, fault kind) resp. "
          "(entry point, rejected blocks, stream length L). distinct = distinct class keys (operation/variant/rejected-count/accepted-value class; "
-         "operation/skipped-value class; operation/variant/rejected/kind/k; .../eof@L)",
+         "operation/skipped-value class; operation/variant/rejected/kind/k; .../eof@L; hist/object/pattern and hist/object/call>call with their modes)",
     jobs=both("c12.fidelity", ["avx2", "noadx", "avx", "purego", "ia32"], shards=(4, 12), floor=1000)
     + both("c12.retry", ["avx2", "purego", "ia32"], shards=(1, 2), floor=40)
     + both("c12.faults", ["avx2", "purego"], shards=(2, 8), floor=1000)
     + both("c12.eof", ["avx2", "purego"], shards=(1, 4), floor=500)
-    + both("c12.reentrant", ["avx2", "purego"], shards=(2, 8), floor=500),
+    + both("c12.reentrant", ["avx2", "purego"], shards=(2, 8), floor=500)
+    + both("c12.history", ["avx2", "purego"], shards=(2, 8), floor=300)
+    + [J("c12.history", ["ia32"], "ia32", shards=(4, 8), floor=300)],
     exhaustive_note="fault enumeration is exhaustive over (entry point x rejected-blocks-first j in 0..2 (thorough 0..4) x Read index k in 0..R+1 x "
                     "{EOF/0 bytes, EOF/partial, ErrUnexpectedEOF/0 bytes, custom error, short read then error}) where R is the number of reads of the "
                     "fault-free run on the same stream (events.fault_free_runs; k >= R must go unnoticed), and over every stream length L in "
@@ -33,6 +48,9 @@ PLAN = dict(
         "GM/T 0044.5 annex A and C examples at every start",
         "the 1-byte probe of randutil.MaybeReadByte is answered from mon.Script's side channel only before the first main-stream read "
         "(wrapper in wl/c12); a failing source is modelled as failing for good from the faulted read on",
+        "c12.history: the follow-up oracles of the key exchanges are ref/sm2kx (GB/T 32918.3, self-tested against the annex example) and ref/sm9.Kex "
+        "with GT values from the verif hook's pairing/exponentiation; after sm2 KeyExchange.Destroy() (which wipes the identity digests) only the "
+        "ephemeral point is judged, not the derived key",
     ],
 )
 
@@ -43,12 +61,18 @@ CLAIM = dict(
          "keys; next block after a rejection or an algorithm-level retry), and the Read log shows no byte consumed beyond those blocks (plus the "
          "IV of the SM9 block modes). Every ordered pair of operations is interleaved deterministically at the API boundary (the second "
          "operation runs inside a Read of the first, before and after the bytes are delivered) and both must still use exactly their own block. "
+         "Object histories: every object a caller can keep (SM2 and SM9 key-exchange objects restarted in either role, after Destroy, after refused "
+         "or failed calls; key objects signing / encrypting / wrapping repeatedly; the generators; one random source shared by consecutive calls) is "
+         "taken through sequences of 2..5 calls with different scripted bytes per call: each call's secret is the first in-range block of its own "
+         "bytes, never one of an earlier call, the key exchange then completes (key and confirmation values of the reference model) with the scalar "
+         "of the latest call, and earlier generated keys stay unchanged. "
          "Every Read position of every operation is failed in five ways, and every premature end of stream by byte "
          "offset: the operation must return an error, no output, and must not panic. Fault enumeration for the second clause, exploration of "
          "streams for the first.",
     design_ref="DESIGN.md 6 (C12)",
-    note="trusted: harness/ref/ec, ref/sm3, math/big, crypto/elliptic (NIST P-256), encoding/asn1; bn256 arithmetic through the verif hook "
+    note="trusted: harness/ref/ec, ref/sm3, ref/sm2kx, ref/sm9 (Kex), math/big, crypto/elliptic (NIST P-256), encoding/asn1; bn256 arithmetic through the verif hook "
          "(its correctness is C09's claim). SM9 signature l=0 retry cannot be forced (needs an H2 preimage) and is only modelled.",
     technique="scripted random source with Read-event log + scalar-recovery / recomputation oracles + exhaustive fault placement + "
-              "deterministic re-entrant interleaving of operation pairs from inside the Reader",
+              "deterministic re-entrant interleaving of operation pairs from inside the Reader + call histories on kept objects with per-call "
+              "scripted bytes and protocol follow-up against reference peers",
 )
